@@ -853,6 +853,13 @@ func (r *proxyStreamReceiver) recvReplicationMessages(
 							},
 						},
 					}
+					// A target that holds tasks of this source must take part in the aggregated ACK even before it has
+					// acknowledged anything: nothing below the first task routed to it is outstanding there.
+					r.ackMu.Lock()
+					if _, tracked := r.ackByTarget[targetShardID]; !tracked {
+						r.ackByTarget[targetShardID] = tasks[0].SourceTaskId
+					}
+					r.ackMu.Unlock()
 					if r.shardManager.DeliverMessagesToShardOwner(targetShardID, &msg, shutdownChan, r.logger) {
 						sentByTarget[targetShardID] = true
 						numRemaining--
